@@ -48,6 +48,13 @@ class Ctx:
 
         return min(max(thorough, quick), quick * focus.get().scale)
 
+    def boost(self, n):
+        """traced-run batches are spread over all cores (harness.common.pmap): the quick tier affords
+        three times the cases it had when they ran in one process"""
+        if self.thorough:
+            return n
+        return n * int(os.environ.get("VERIF_QUICK_BOOST", "3"))
+
     def elapsed(self):
         return time.time() - self.t0
 
